@@ -1,17 +1,41 @@
 package main
 
-// C10: every `range` over a map-typed expression in martian/syntax and
-// martian/core (go/types, packages type-checked from source; no `go list`),
-// with enclosing function, an automatic coarse classification and a hash of
-// the statement, compared with the committed REVIEWED classification
-// corpus/C10/map_range_sites.json.
+// C10: every map-iteration site in martian/syntax and martian/core (go/types,
+// packages type-checked from source; no `go list`), with enclosing function,
+// an automatic coarse classification and a hash of the statement, compared
+// with the committed REVIEWED classification corpus/C10/map_range_sites.json.
+//
+// Forms listed (mrSite.Form):
+//   range        `for … range m` over a map-typed expression (ids `…:range m#n`,
+//                unchanged since the first round)
+//   maps.<F>     a reference to maps.Keys / Values / All / Clone / Copy / Collect /
+//                Insert / DeleteFunc / Equal / EqualFunc (std `maps` or
+//                golang.org/x/exp/maps), reported with the outermost enclosing
+//                chain of slices.* / maps.* consumers, e.g.
+//                `slices.Collect(maps.Keys(m))`, `slices.Sorted(maps.Keys(m))`
+//   reflect.<M>  calls of (reflect.Value).MapKeys / MapRange
+//   sync.Map.Range
+//   range-func   `for … range f(…)` over a function-typed expression
+//                (iter.Seq / iter.Seq2 …) which is not itself one of the above
+//   range-untyped  `range` over an expression whose type could not be determined
+//                (partial type information must not hide a map)
+// The package qualifier is resolved through go/types (types.PkgName); when
+// type information is missing it falls back to the file's import table
+// (syntactic recognition), reflect method calls then match by name.
 //
 // Facts:
 //   c10Unreviewed      : sites that are new, or whose statement changed since
 //                        it was reviewed (id or hash not in the reviewed file)
+//   c10Vanished        : entries of the reviewed file (`sites`) for which no site
+//                        is found any more (the loop was deleted or rewritten in
+//                        another form); a reviewer moves such an entry to
+//                        `resolved_sites` with the outcome
 //   c10OrderDependent  : sites whose reviewed class is "order-dependent-output"
 //                        (iteration order reaches compiler/formatter/call-graph output)
 //   c10MapRangeCount   : number of sites found
+//   c10IterFormsRecognised : the forms found in an embedded sample package, once
+//                        with full and once with crippled type information
+//                        (the recognisers are not vacuous)
 
 import (
 	"bytes"
@@ -43,6 +67,7 @@ type mrSite struct {
 	Auto  string `json:"auto"` // keys-collected-then-sorted | map-or-set-insert | other
 	Hash  string `json:"hash"`
 	Line  int    `json:"line"`
+	Form  string `json:"form,omitempty"`  // "" (= range over a map) | maps.Keys | reflect.MapKeys | range-func | …
 	Class string `json:"class,omitempty"` // reviewed class (from the committed file)
 	Why   string `json:"why,omitempty"`
 }
@@ -136,7 +161,7 @@ func mrFuncName(fd *ast.FuncDecl) string {
 }
 
 // coarse automatic classification of the loop body
-func mrAuto(fd *ast.FuncDecl, rs *ast.RangeStmt, fset *token.FileSet) string {
+func mrAuto(fnBody ast.Node, rs *ast.RangeStmt, fset *token.FileSet) string {
 	// slices appended to inside the body
 	appended := map[string]bool{}
 	onlyInserts := true
@@ -183,7 +208,7 @@ func mrAuto(fd *ast.FuncDecl, rs *ast.RangeStmt, fset *token.FileSet) string {
 	if len(appended) > 0 {
 		// is one of the appended slices sorted later in the same function?
 		sorted := false
-		ast.Inspect(fd.Body, func(n ast.Node) bool {
+		ast.Inspect(fnBody, func(n ast.Node) bool {
 			call, ok := n.(*ast.CallExpr)
 			if !ok || call.Pos() < rs.End() {
 				return true
@@ -230,38 +255,400 @@ func mrCollect(repo string) ([]mrSite, error) {
 			if strings.HasPrefix(fname, "verif_") {
 				continue
 			}
-			for _, d := range f.Decls {
-				fd, ok := d.(*ast.FuncDecl)
-				if !ok || fd.Body == nil {
-					continue
-				}
-				seen := map[string]int{}
-				ast.Inspect(fd.Body, func(n ast.Node) bool {
-					rs, ok := n.(*ast.RangeStmt)
-					if !ok {
-						return true
-					}
-					tv, ok := info.Types[rs.X]
-					if !ok || tv.Type == nil {
-						return true
-					}
-					if _, isMap := tv.Type.Underlying().(*types.Map); !isMap {
-						return true
-					}
-					expr := mrExprString(fset, rs.X)
-					fn := mrFuncName(fd)
-					seen[expr]++
-					id := fmt.Sprintf("%s/%s:%s:range %s#%d", rel[strings.LastIndex(rel, "/")+1:], fname, fn, expr, seen[expr])
-					h := sha1.Sum([]byte(mrExprString(fset, rs)))
-					sites = append(sites, mrSite{Id: id, Pkg: rel, File: fname, Func: fn, Expr: expr,
-						Auto: mrAuto(fd, rs, fset), Hash: hex.EncodeToString(h[:6]), Line: fset.Position(rs.Pos()).Line})
-					return true
-				})
-			}
+			sites = append(sites, mrScanFile(fset, info, rel, fname, f)...)
 		}
 	}
 	sort.Slice(sites, func(i, j int) bool { return sites[i].Id < sites[j].Id })
 	return sites, nil
+}
+
+// every map-iteration site of one file
+func mrScanFile(fset *token.FileSet, info *types.Info, rel, fname string, f *ast.File) []mrSite {
+	var sites []mrSite
+	imports := mrImportTable(f)
+	short := rel[strings.LastIndex(rel, "/")+1:]
+	for _, d := range f.Decls {
+		switch d := d.(type) {
+		case *ast.FuncDecl:
+			if d.Body != nil {
+				sites = append(sites, mrScanBody(fset, info, imports, rel, short, fname, mrFuncName(d), d, d.Body)...)
+			}
+		case *ast.GenDecl:
+			// function literals in package-level variable initialisers
+			if d.Tok != token.VAR {
+				continue
+			}
+			for _, sp := range d.Specs {
+				vs, ok := sp.(*ast.ValueSpec)
+				if !ok || len(vs.Names) == 0 {
+					continue
+				}
+				for _, v := range vs.Values {
+					sites = append(sites, mrScanBody(fset, info, imports, rel, short, fname, "var "+vs.Names[0].Name, nil, v)...)
+				}
+			}
+		}
+	}
+	return sites
+}
+
+// local package name -> import path (syntactic fallback when go/types has no PkgName)
+func mrImportTable(f *ast.File) map[string]string {
+	t := map[string]string{}
+	for _, im := range f.Imports {
+		p := strings.Trim(im.Path.Value, "\"`")
+		name := p[strings.LastIndex(p, "/")+1:]
+		if im.Name != nil {
+			name = im.Name.Name
+		}
+		t[name] = p
+	}
+	return t
+}
+
+// functions of package maps that walk (or are fed by a walk over) a map
+var mrMapsFuncs = map[string]bool{"Keys": true, "Values": true, "All": true, "Clone": true, "Copy": true,
+	"Collect": true, "Insert": true, "DeleteFunc": true, "Equal": true, "EqualFunc": true}
+
+func mrIsMapsPath(p string) bool { return p == "maps" || p == "golang.org/x/exp/maps" }
+
+// the import path an identifier used as package qualifier stands for ("" = not a package)
+func mrPkgPath(info *types.Info, imports map[string]string, id *ast.Ident) string {
+	if obj, ok := info.Uses[id]; ok && obj != nil {
+		if pn, ok := obj.(*types.PkgName); ok {
+			return pn.Imported().Path()
+		}
+		return "" // a variable, field, … shadows the package name
+	}
+	if id.Obj != nil {
+		return "" // resolved by the parser to a local declaration
+	}
+	return imports[id.Name]
+}
+
+// pkg-qualified callee of a call: ("slices", "Collect")
+func mrQualifiedCallee(info *types.Info, imports map[string]string, call *ast.CallExpr) (string, string) {
+	fun := call.Fun
+	for {
+		switch x := fun.(type) {
+		case *ast.IndexExpr: // explicit instantiation slices.Collect[string](…)
+			fun = x.X
+			continue
+		case *ast.IndexListExpr:
+			fun = x.X
+			continue
+		case *ast.ParenExpr:
+			fun = x.X
+			continue
+		}
+		break
+	}
+	sel, ok := fun.(*ast.SelectorExpr)
+	if !ok {
+		return "", ""
+	}
+	id, ok := sel.X.(*ast.Ident)
+	if !ok {
+		return "", ""
+	}
+	return mrPkgPath(info, imports, id), sel.Sel.Name
+}
+
+func mrNamedType(t types.Type) string {
+	if p, ok := t.(*types.Pointer); ok {
+		t = p.Elem()
+	}
+	if n, ok := t.(*types.Named); ok && n.Obj() != nil && n.Obj().Pkg() != nil {
+		return n.Obj().Pkg().Path() + "." + n.Obj().Name()
+	}
+	return ""
+}
+
+// is one of the slices in `names` sorted after position `after` in `body`?
+func mrSortedLater(fset *token.FileSet, body ast.Node, after token.Pos, names map[string]bool) bool {
+	sorted := false
+	if body == nil {
+		return false
+	}
+	ast.Inspect(body, func(n ast.Node) bool {
+		call, ok := n.(*ast.CallExpr)
+		if !ok || call.Pos() < after {
+			return true
+		}
+		sel, ok := call.Fun.(*ast.SelectorExpr)
+		if !ok {
+			return true
+		}
+		pk, ok := sel.X.(*ast.Ident)
+		if !ok || (pk.Name != "sort" && pk.Name != "slices") || len(call.Args) == 0 {
+			return true
+		}
+		arg := mrExprString(fset, call.Args[0])
+		for s := range names {
+			if arg == s || strings.Contains(arg, "("+s+")") {
+				sorted = true
+			}
+		}
+		return true
+	})
+	return sorted
+}
+
+func mrScanBody(fset *token.FileSet, info *types.Info, imports map[string]string,
+	rel, short, fname, fn string, fd *ast.FuncDecl, body ast.Node) []mrSite {
+	var sites []mrSite
+	seen := map[string]int{}     // `range` over a map, keyed by expression (ids of the first round)
+	seenIter := map[string]int{} // every other form, keyed by form + expression
+	var stack []ast.Node
+	var sortBody ast.Node = body
+	// the calls already reported as (part of) an iterator-form site: a `range` over
+	// such a call is not reported a second time as range-func / range-untyped
+	claimed := map[ast.Node]bool{}
+
+	add := func(form, expr, auto string, stmt ast.Node, pos token.Pos) {
+		key := form + " " + expr
+		seenIter[key]++
+		var idForm string
+		switch {
+		case strings.HasPrefix(form, "range-"):
+			idForm = form + " " + expr
+		default:
+			idForm = "call " + expr
+		}
+		id := fmt.Sprintf("%s/%s:%s:%s#%d", short, fname, fn, idForm, seenIter[key])
+		h := sha1.Sum([]byte(mrExprString(fset, stmt)))
+		sites = append(sites, mrSite{Id: id, Pkg: rel, File: fname, Func: fn, Expr: expr, Auto: auto,
+			Hash: hex.EncodeToString(h[:6]), Line: fset.Position(pos).Line, Form: form})
+	}
+	// innermost statement on the stack (not a bare block)
+	enclosingStmt := func() ast.Node {
+		for i := len(stack) - 1; i >= 0; i-- {
+			if st, ok := stack[i].(ast.Stmt); ok {
+				if _, isBlock := st.(*ast.BlockStmt); !isBlock {
+					return st
+				}
+			}
+		}
+		if len(stack) > 0 {
+			return stack[0]
+		}
+		return body
+	}
+	// the outermost chain of slices.* / maps.* calls that consume `inner` as an argument;
+	// returns that call, and the names of the consumers from the inside out
+	wrap := func(inner ast.Node, from int) (ast.Node, []string) {
+		var chain []string
+		cur := inner
+		for i := from; i >= 0; i-- {
+			call, ok := stack[i].(*ast.CallExpr)
+			if !ok {
+				break
+			}
+			isArg := false
+			for _, a := range call.Args {
+				if a == cur {
+					isArg = true
+				}
+			}
+			pk, name := mrQualifiedCallee(info, imports, call)
+			if !isArg || !(pk == "slices" || pk == "golang.org/x/exp/slices" || mrIsMapsPath(pk)) {
+				break
+			}
+			if mrIsMapsPath(pk) {
+				chain = append(chain, "maps."+name)
+			} else {
+				chain = append(chain, "slices."+name)
+			}
+			claimed[call] = true
+			cur = call
+		}
+		return cur, chain
+	}
+	// the variable a call result is assigned to by the innermost statement: `x := <outer>` / `x = <outer>`
+	assignedTo := func(outer ast.Node, stmt ast.Node) map[string]bool {
+		as, ok := stmt.(*ast.AssignStmt)
+		if !ok || len(as.Lhs) != len(as.Rhs) {
+			return nil
+		}
+		for i, r := range as.Rhs {
+			if r == outer {
+				return map[string]bool{mrExprString(fset, as.Lhs[i]): true}
+			}
+		}
+		return nil
+	}
+	autoOf := func(form string, chain []string, outer ast.Node, stmt ast.Node) string {
+		for _, c := range chain {
+			switch c {
+			case "slices.Sorted":
+				return "keys-collected-then-sorted"
+			case "slices.SortedFunc", "slices.SortedStableFunc":
+				if form == "maps.Keys" || form == "reflect.MapKeys" {
+					return "keys-collected-then-sorted" // distinct keys: any consistent comparison orders them
+				}
+				return "other"
+			case "maps.Collect", "maps.Insert":
+				return "map-or-set-insert"
+			}
+		}
+		switch form {
+		case "maps.Clone", "maps.Copy", "maps.Collect", "maps.Insert":
+			return "map-or-set-insert"
+		}
+		collected := form == "reflect.MapKeys"
+		for _, c := range chain {
+			if c == "slices.Collect" || c == "slices.AppendSeq" {
+				collected = true
+			}
+		}
+		if collected {
+			if names := assignedTo(outer, stmt); names != nil && mrSortedLater(fset, sortBody, outer.End(), names) {
+				return "keys-collected-then-sorted"
+			}
+		}
+		return "other"
+	}
+
+	ast.Inspect(body, func(n ast.Node) bool {
+		if n == nil {
+			stack = stack[:len(stack)-1]
+			return true
+		}
+		switch x := n.(type) {
+		case *ast.RangeStmt:
+			tv, ok := info.Types[x.X]
+			var under types.Type
+			if ok && tv.Type != nil && tv.Type != types.Typ[types.Invalid] {
+				under = tv.Type.Underlying()
+			}
+			switch under.(type) {
+			case *types.Map:
+				expr := mrExprString(fset, x.X)
+				seen[expr]++
+				id := fmt.Sprintf("%s/%s:%s:range %s#%d", short, fname, fn, expr, seen[expr])
+				h := sha1.Sum([]byte(mrExprString(fset, x)))
+				sites = append(sites, mrSite{Id: id, Pkg: rel, File: fname, Func: fn, Expr: expr,
+					Auto: mrAuto(sortBody, x, fset), Hash: hex.EncodeToString(h[:6]), Line: fset.Position(x.Pos()).Line})
+			case *types.Signature, nil:
+				// decided when the walk leaves the statement header: see below (needs `claimed`)
+			}
+		case *ast.SelectorExpr:
+			// maps.Keys etc., called or used as a function value
+			if id, ok := x.X.(*ast.Ident); ok && mrMapsFuncs[x.Sel.Name] && mrIsMapsPath(mrPkgPath(info, imports, id)) {
+				form := "maps." + x.Sel.Name
+				// climb to the call this selector is the callee of (through instantiation / parens)
+				var inner ast.Node = x
+				i := len(stack) - 1
+				for ; i >= 0; i-- {
+					switch p := stack[i].(type) {
+					case *ast.IndexExpr, *ast.IndexListExpr, *ast.ParenExpr:
+						inner = p
+						continue
+					case *ast.CallExpr:
+						if p.Fun == inner {
+							inner = p
+							i--
+						}
+					}
+					break
+				}
+				if call, isCall := inner.(*ast.CallExpr); isCall && (form == "maps.Collect" || form == "maps.Insert") {
+					// maps.Collect(maps.All(m)), maps.Insert(dst, maps.Keys(..)): reported with the inner site
+					fed := false
+					for _, a := range call.Args {
+						if ac, ok := a.(*ast.CallExpr); ok {
+							if pk, name := mrQualifiedCallee(info, imports, ac); mrIsMapsPath(pk) && (name == "Keys" || name == "Values" || name == "All") {
+								fed = true
+							}
+						}
+					}
+					if fed {
+						break
+					}
+				}
+				claimed[inner] = true
+				outer, chain := wrap(inner, i)
+				stmt := enclosingStmt()
+				add(form, mrExprString(fset, outer), autoOf(form, chain, outer, stmt), stmt, x.Pos())
+			}
+		case *ast.CallExpr:
+			sel, ok := x.Fun.(*ast.SelectorExpr)
+			if !ok {
+				break
+			}
+			switch sel.Sel.Name {
+			case "MapKeys", "MapRange":
+				if len(x.Args) != 0 {
+					break
+				}
+				recv := ""
+				if tv, ok := info.Types[sel.X]; ok && tv.Type != nil && tv.Type != types.Typ[types.Invalid] {
+					recv = mrNamedType(tv.Type)
+					if recv != "reflect.Value" {
+						break
+					}
+				} else if _, has := imports["reflect"]; !has {
+					break // type unknown and the file does not import reflect
+				}
+				form := "reflect." + sel.Sel.Name
+				claimed[x] = true
+				outer, chain := wrap(x, len(stack)-1)
+				stmt := enclosingStmt()
+				add(form, mrExprString(fset, outer), autoOf(form, chain, outer, stmt), stmt, x.Pos())
+			case "Range":
+				if tv, ok := info.Types[sel.X]; ok && tv.Type != nil && mrNamedType(tv.Type) == "sync.Map" {
+					claimed[x] = true
+					add("sync.Map.Range", mrExprString(fset, x.Fun), "other", enclosingStmt(), x.Pos())
+				}
+			}
+		}
+		stack = append(stack, n)
+		return true
+	})
+	// second pass: `range` over a function or over an expression of unknown type whose
+	// operand is not (a consumer chain around) a site reported above
+	ast.Inspect(body, func(n ast.Node) bool {
+		x, ok := n.(*ast.RangeStmt)
+		if !ok {
+			return true
+		}
+		var opnd ast.Node = x.X
+		for {
+			if p, ok := opnd.(*ast.ParenExpr); ok {
+				opnd = p.X
+				continue
+			}
+			break
+		}
+		if claimed[opnd] {
+			return true
+		}
+		tv, ok := info.Types[x.X]
+		form := ""
+		if !ok || tv.Type == nil || tv.Type == types.Typ[types.Invalid] {
+			if _, isLit := opnd.(*ast.BasicLit); !isLit {
+				form = "range-untyped"
+			}
+		} else if _, isFunc := tv.Type.Underlying().(*types.Signature); isFunc {
+			form = "range-func"
+			// iterators of the standard library over slices / strings / integers are not derived from a map
+			if call, ok := opnd.(*ast.CallExpr); ok {
+				if pk, _ := mrQualifiedCallee(info, imports, call); pk == "slices" || pk == "strings" || pk == "bytes" {
+					form = "" // a wrapped site (if any) is reported with this statement as its hash
+				}
+			}
+		}
+		if form != "" {
+			key := form + " " + mrExprString(fset, x.X)
+			seenIter[key]++
+			id := fmt.Sprintf("%s/%s:%s:%s %s#%d", short, fname, fn, form, mrExprString(fset, x.X), seenIter[key])
+			h := sha1.Sum([]byte(mrExprString(fset, x)))
+			sites = append(sites, mrSite{Id: id, Pkg: rel, File: fname, Func: fn, Expr: mrExprString(fset, x.X),
+				Auto: mrAuto(sortBody, x, fset), Hash: hex.EncodeToString(h[:6]), Line: fset.Position(x.Pos()).Line, Form: form})
+		}
+		return true
+	})
+	return sites
 }
 
 func mrReviewedPath() string {
@@ -281,6 +668,7 @@ var mrCache struct {
 	unreviewed   []string
 	orderDep     []string
 	staleEntries []string
+	selfTest     []string
 	err          error
 }
 
@@ -340,6 +728,95 @@ func mrRun(repo string) {
 	}
 	sort.Strings(mrCache.staleEntries)
 	mrCache.sites = sites
+	mrCache.selfTest, mrCache.err = mrSelfTest()
+}
+
+// A sample package holding one instance of every form, scanned once with the real
+// standard-library importer and once with an importer that resolves NO import (every
+// package an empty stand-in: the situation of a third-party or unavailable package).
+const mrSampleSrc = `package sample
+
+import (
+	"iter"
+	"maps"
+	"reflect"
+	"slices"
+	"sort"
+	"strings"
+	"sync"
+)
+
+type T struct{ m map[string]int }
+
+func (t T) Keys() iter.Seq[string] { return maps.Keys(t.m) }
+
+var pkgLevel = func(m map[string]int) []string { return slices.Collect(maps.Keys(m)) }
+
+func f(m map[string]int, v reflect.Value, sm *sync.Map, t T) {
+	a := slices.Collect(maps.Keys(m))
+	b := slices.Sorted(maps.Keys(m))
+	c := slices.SortedFunc(maps.Keys(m), strings.Compare)
+	d := slices.Collect(maps.Values(m))
+	sort.Ints(d)
+	for k, x := range maps.All(m) {
+		_, _ = k, x
+	}
+	e := maps.Collect(maps.All(m))
+	maps.Insert(e, maps.All(m))
+	for _, k := range v.MapKeys() {
+		_ = k
+	}
+	it := v.MapRange()
+	for k := range t.Keys() {
+		_ = k
+	}
+	g := maps.Clone(m)
+	sm.Range(func(k, v any) bool { return true })
+	for k := range m {
+		_ = k
+	}
+	h := maps.Keys
+	for _, k := range slices.Sorted(maps.Keys(m)) {
+		_ = k
+	}
+	_, _, _, _, _, _, _, _ = a, b, c, d, it, g, h, e
+}
+`
+
+type mrNoImporter struct{}
+
+func (mrNoImporter) Import(path string) (*types.Package, error) {
+	p := types.NewPackage(path, path[strings.LastIndex(path, "/")+1:])
+	p.MarkComplete()
+	return p, nil
+}
+
+func mrSelfTest() ([]string, error) {
+	var out []string
+	for _, mode := range []string{"typed", "untyped"} {
+		fset := token.NewFileSet()
+		f, err := parser.ParseFile(fset, "sample.go", mrSampleSrc, parser.ParseComments)
+		if err != nil {
+			return nil, err
+		}
+		var imp types.Importer = mrNoImporter{}
+		if mode == "typed" {
+			imp = importer.ForCompiler(fset, "source", nil)
+		}
+		info := &types.Info{Types: map[ast.Expr]types.TypeAndValue{}, Uses: map[*ast.Ident]types.Object{}, Defs: map[*ast.Ident]types.Object{}}
+		conf := types.Config{Importer: imp, Error: func(error) {}}
+		conf.Check("sample", fset, []*ast.File{f}, info)
+		sites := mrScanFile(fset, info, "x/sample", "sample.go", f)
+		sort.Slice(sites, func(i, j int) bool { return sites[i].Line < sites[j].Line })
+		for _, s := range sites {
+			form := s.Form
+			if form == "" {
+				form = "range"
+			}
+			out = append(out, fmt.Sprintf("%s %s:%s %s [%s]", mode, s.Func, form, s.Expr, s.Auto))
+		}
+	}
+	return out, nil
 }
 
 func init() {
@@ -352,6 +829,27 @@ func init() {
 			}
 			return leanStrList(mrCache.unreviewed), map[string]interface{}{"unreviewed": mrCache.unreviewed,
 				"reviewed_entries_without_site": mrCache.staleEntries}, nil
+		},
+	})
+	addFact(fact{
+		// the default makes the obligation FAIL when the site list cannot be computed
+		name: "c10Vanished", leanTy: "List String", deflt: "[\"site list not extracted\"]",
+		extract: func(repo string) (string, interface{}, error) {
+			mrRun(repo)
+			if mrCache.err != nil {
+				return "", nil, mrCache.err
+			}
+			return leanStrList(mrCache.staleEntries), mrCache.staleEntries, nil
+		},
+	})
+	addFact(fact{
+		name: "c10IterFormsRecognised", leanTy: "List String", deflt: "[]",
+		extract: func(repo string) (string, interface{}, error) {
+			mrRun(repo)
+			if mrCache.err != nil {
+				return "", nil, mrCache.err
+			}
+			return leanStrList(mrCache.selfTest), mrCache.selfTest, nil
 		},
 	})
 	addFact(fact{
@@ -375,7 +873,15 @@ func init() {
 			for _, s := range mrCache.sites {
 				hist[s.Class+"/"+s.Auto]++
 			}
-			return fmt.Sprint(len(mrCache.sites)), map[string]interface{}{"count": len(mrCache.sites), "by_class": hist, "sites": mrCache.sites}, nil
+			forms := map[string]int{}
+			for _, s := range mrCache.sites {
+				if s.Form == "" {
+					forms["range"]++
+				} else {
+					forms[s.Form]++
+				}
+			}
+			return fmt.Sprint(len(mrCache.sites)), map[string]interface{}{"count": len(mrCache.sites), "by_class": hist, "by_form": forms, "sites": mrCache.sites}, nil
 		},
 	})
 }
